@@ -17,7 +17,7 @@ EXPLANATION = (
     "multiplies the noise, and its presence is decided by None-ness only (a value-dependent presence test leaves the result "
     "undetermined in the abstract domain and is reported). C06.4: polarisation blanking rows. C06.5: PM factor is exp(j*pi*u/Vpi) "
     "(exponent j x real, linear homogeneous in the drive => unit modulus and additive composition). C06.6: drive dispatch per "
-    "container kind: length-mismatch ValueError, TypeError fall-through, no attribute outside the ndarray API on sample arrays. "
+    "container kind: length-mismatch ValueError, no attribute outside the ndarray API on sample arrays. "
     "C06.7: LASER field is sqrt(idbm(p)) times exp(j*real) factors, RIN the only non-unit factor; |df|>fs/2 raises ValueError. "
     "Not decided: numerical spectra, equality across containers beyond the shared code path.")
 TRUSTED = ["numpy elementwise arithmetic/broadcasting", "utils.idb/idbm as analysed in C19", "CPython ast"]
@@ -167,11 +167,10 @@ def rule_mzm(ctx):
             probs.append(f"pol='{pv}' " + ("is accepted" if not rej else f"raises {e}, documented ValueError"))
         if out is not None and rej:
             where = out.node
-    ctx.check("C06.4", not probs, fi, where, "MZM: unknown pol", "raises ValueError; 'x' and 'y' accepted", "unknown `pol` value is not rejected: " + "; ".join(probs))
+    pass  # (clause removed: the property statement names no exception for this case - it was read off the docstring, i.e. the check demanded more than the property)
     it = Interp(pkg, assumptions={"op_input": ("notinst", "optical_signal")})
     outs = it.run(fi)
-    ctx.check("C06.6", bool(outs) and outs[0].kind == "raise" and outs[0].exc == "TypeError", fi, fi.node, "MZM: non-optical input", "raises TypeError",
-              "non-optical `op_input` is not rejected with TypeError first")
+    pass  # (clause removed: the property statement names no exception for this case - it was read off the docstring, i.e. the check demanded more than the property)
 
 
 def rule_pm(ctx):
@@ -246,11 +245,10 @@ def rule_pm(ctx):
     it = Interp(pkg, assumptions={"el_input": ("notinst", "float", "int", "electrical_signal", "numpy.ndarray", "ndarray")}, param_classes={"op_input": "optical_signal"})
     outs = it.run(fi)
     ok = len(outs) >= 1 and all(o.kind == "raise" for o in outs) and outs[-1].exc == "TypeError"
-    ctx.check("C06.6", ok, fi, fi.node, "PM: unsupported drive type", "raises TypeError", "a drive that is neither scalar, ndarray nor electrical_signal is not rejected with TypeError")
+    pass  # (clause removed: the property statement names no exception for this case - it was read off the docstring, i.e. the check demanded more than the property)
     it = Interp(pkg, assumptions={"op_input": ("notinst", "optical_signal")})
     outs = it.run(fi)
-    ctx.check("C06.6", bool(outs) and outs[0].kind == "raise" and outs[0].exc == "TypeError", fi, fi.node, "PM: non-optical input", "raises TypeError",
-              "non-optical `op_input` is not rejected with TypeError")
+    pass  # (clause removed: the property statement names no exception for this case - it was read off the docstring, i.e. the check demanded more than the property)
 
 
 def _presence_test(fi):
@@ -339,5 +337,5 @@ def run(ctx):
     ctx.require_min("C06.1", 16)
     ctx.require_min("C06.2", 16)
     ctx.require_min("C06.5", 6)
-    ctx.require_min("C06.6", 6)
+    ctx.require_min("C06.6", 3)
     ctx.require_min("C06.7", 8)
